@@ -14,7 +14,7 @@ func init() {
 	propertyRules["C04"] = []ruleFn{ruleAdmitPrep, ruleSendPResp2, ruleRespHash, ruleCommitQuorum, ruleRespMatch, ruleViewQuorum, ruleCVStore, ruleViewResetCover, ruleDefs}
 	propertyExplain["C04"] = "Preconditions of PrepareResponse / (Pre)Commit / view change at every site that can perform them: a received preparation is stored only behind its admission condition (view, designated primary or non-primary, verification callback ok); the response is built only with the proposal recorded, all transactions present and after the block verifier returned true, and names the stored proposal's hash; (pre)commit only behind an M-of-N current-view preparation quorum containing the request; view change only behind an M-of-N ChangeView quorum for that view or above. Honesty of the counted validators and callback behaviour are not decided."
 	propertyRules["C06"] = []ruleFn{ruleArithN, ruleArithF, ruleArithM, ruleArithPrimary, rulePurity, rulePrimaryField}
-	propertyExplain["C06"] = "Affine/modular normal forms of the bodies of the exported N, F, M and GetPrimaryIndex: N ≡ len(Validators); F ≡ (N−1) div 3; M ≡ N − F; GetPrimaryIndex(v) ≡ r if r≥0 else r+N with r = (int(BlockIndex) − int(v)) mod N computed in signed arithmetic, hence in [0,N) for all N≥1. Purity of the four functions and single definition of PrimaryIndex. With these forms 2M−N > F and the rotation property are arithmetic facts. The uses are checked too: the acceptance, pre-acceptance, commit and view-change decisions compare their counts with M in normal form (G-ACCEPT, G-PREACCEPT, G-COMMIT-QUORUM, G-VIEW-QUORUM), the recovery responder window is F+1 and the exported F-based predicates mean what they say (DEF-PREDICATES). 32-bit builds are out of scope."
+	propertyExplain["C06"] = "Affine/modular normal forms of the bodies of the exported N, F, M and GetPrimaryIndex: N ≡ len(Validators); F ≡ (N−1) div 3; M ≡ N − F; GetPrimaryIndex(v) ≡ r if r≥0 else r+N with r = (int(BlockIndex) − int(v)) mod N computed in signed arithmetic, hence in [0,N) for all N≥1. Purity of the four functions and single definition of PrimaryIndex. With these forms 2M−N > F and the rotation property are arithmetic facts. The uses are checked too: the acceptance, pre-acceptance, commit and view-change decisions compare their counts with M in normal form (G-ACCEPT, G-PREACCEPT, G-COMMIT-QUORUM, G-VIEW-QUORUM), the recovery responder window is F+1 and the exported F-based predicates mean what they say (DEF-PREDICATES). The same primary on 32-bit targets: no conversion in GetPrimaryIndex loses magnitude under the size model of GOARCH=386 (A-PRIMARY-WIDTH)."
 }
 
 // exitsOf walks a function standalone and returns its exit states.
